@@ -150,7 +150,7 @@ def anchors(ctx, e, contrib):
 
 def run_net(case, ctx):
     rng = ctx.rng
-    scen = P.build_scenario(rng, case['flavour'], ctx, topo_kw={'lumped': True, 'per_freq_loss': True, 'dispersion_variants': True})
+    scen = P.build_scenario(rng, case['flavour'], ctx, topo_kw={'lumped': True, 'per_freq_loss': True, 'dispersion_variants': True, 'dup_lumped': True})
     for job in scen['jobs']:
         try:
             p, si, events, ops = W.propagate_copy(job['path'], job['req'], scen['equipment'])
